@@ -524,6 +524,15 @@ func (f *Firewall) inConns(fp firewall.Packet, h *HostInfo, caPool *cert.CAPool,
 		return false
 	}
 
+	if now := time.Now(); now.After(c.Expires) {
+		// The flow has been idle past its timeout but was not reaped yet, the wheel only advances when conns are
+		// added. Do not honour or refresh it. Advancing the wheel here hands the entry to the purge above, deleting
+		// it directly would leave its timer behind and a later addConn for the same flow would add a second one.
+		conntrack.TimerWheel.Advance(now)
+		conntrack.Unlock()
+		return false
+	}
+
 	if c.rulesVersion != f.rulesVersion {
 		// This conntrack entry was for an older rule set, validate
 		// it still passes with the current rule set
